@@ -216,6 +216,9 @@ def finalize(res):
     for k in ('states', 'transitions', 'traces_validated_against_impl', 'exhaustive'):
         if k in cov:
             print('  %s=%s' % (k, cov[k]))
+    for k, v in sorted(agg.c.items()):
+        if k.endswith('_skipped') and v:
+            print('NOTE: %s=%d (an optional sub-check could not run on this tree)' % (k, v))
     for i in sorted(open_ids):
         print('KNOWN-FINDING: property=%s %s [%s] (reproduced in %d cases of this run)' % (
             res.prop, findings[i]['what'], i, agg.c.get('finding:' + i, 0)))
